@@ -361,6 +361,14 @@ def rule_TB10(rep, prog):
                 l = fn.inst(i.ops[0])
                 if l is not None and l.op == "load" and root_ptr(fn, l.d["ptr"]["base"]) == ("a", 0) and l.d["ptr"]["off"] != eoff:
                     doffs.add(l.d["ptr"]["off"])
+        for i in fn.all_insts():
+            # the same comparisons folded into a switch on the captured direction
+            if i.op == "switch" and any(cv in (R, W) for cv, tgt in i.d.get("cases", [])):
+                l = fn.inst(i.ops[0])
+                while l is not None and l.op in ("zext", "trunc", "sext"):
+                    l = fn.inst(l.ops[0])
+                if l is not None and l.op == "load" and root_ptr(fn, l.d["ptr"]["base"]) == ("a", 0) and l.d["ptr"]["off"] != eoff:
+                    doffs.add(l.d["ptr"]["off"])
         if len(doffs) != 1:
             continue
         doff = doffs.pop()
